@@ -412,7 +412,13 @@ impl<'tcx> Cx<'tcx> {
                 if let Ok(val) = c.eval(tcx, tenv, span) {
                     if let mir::ConstValue::Scalar(rustc_middle::mir::interpret::Scalar::Ptr(ptr, _)) = val {
                         let (prov, off) = ptr.prov_and_relative_offset();
-                        if let Some(rustc_middle::mir::interpret::GlobalAlloc::Memory(alloc)) = tcx.try_get_global_alloc(prov.alloc_id()) {
+                        // a promoted constant lives in an anonymous allocation, a `static` in its own: both are read
+                        let galloc = match tcx.try_get_global_alloc(prov.alloc_id()) {
+                            Some(rustc_middle::mir::interpret::GlobalAlloc::Memory(alloc)) => Some(alloc),
+                            Some(rustc_middle::mir::interpret::GlobalAlloc::Static(sdid)) if !tcx.is_foreign_item(sdid) => tcx.eval_static_initializer(sdid).ok(),
+                            _ => None,
+                        };
+                        if let Some(alloc) = galloc {
                             let a = alloc.inner();
                             let start = off.bytes() as usize;
                             let len = a.len();
@@ -891,7 +897,7 @@ impl<'tcx> Cx<'tcx> {
         }
         // aggregate constants of this crate (`const TABLE: [(u32, &str); 4] = [..]`): the statements of the
         // initialiser, so a table can be read row by row with the names of the constants it is built from
-        if !is_static && did.is_local() && matches!(ty.kind(), ty::Array(..) | ty::Tuple(..)) {
+        if !is_static && did.is_local() && tcx.hir_maybe_body_owned_by(did.expect_local()).is_some() {
             let body = tcx.mir_for_ctfe(did.expect_local());
             let tenv = TypingEnv::post_analysis(tcx, did);
             let straight = body.basic_blocks.iter().all(|d| matches!(d.terminator().kind, mir::TerminatorKind::Goto { .. } | mir::TerminatorKind::Return));
